@@ -38,7 +38,8 @@ inline void svprintscripts(std::vector<std::string>& l, int& lmax, std::vector<C
     valtype vchPushValue;
     bool begun = false;
     if (tce) {
-        auto desc = tce->Description();
+        // like the scripts below, the table shows what is still to be executed: the steps already taken are left out
+        auto desc = tce->Description(tce->m_i);
         std::string header = "<<< taproot commitment >>>";
         if (header.length() > lmax) lmax = header.length();
         l.push_back(header);
